@@ -9,6 +9,12 @@ Re-reads on every run, from the current source tree,
     second loop adds (`remote->localIndexPair().local().local()`),
   * the bodies of the six `contains` functions of dune/common/enumset.hh (EmptySet, AllSet, EnumItem, EnumRange,
     NegateSet, Combine), which are single `return <boolean expression>;` statements,
+  * (round three) the bounds of the two completion loops at the end of `BufferedCommunicator::sendRecv`
+    (dune/common/parallel/communicator.hh): how often `MPI_Waitany` is called and over how many entries of `recvRequests`,
+    and how many entries of `sendRequests` are waited for (a `for` loop around `MPI_Wait(sendRequests+i, ..)` /
+    `MPI_Wait(&sendRequests[i], ..)`, or one `MPI_Waitall(n, sendRequests, ..)`), each bound being either
+    `messageInformation_.size()` (all neighbours) or the counter that is incremented next to every `MPI_Irecv`
+    (the receives really posted),
 and emits them as Lean definitions into lean/DuneVerif/Gen/C05.lean.  Model/C05.lean evaluates the generated tests in
 `countPass` / `addPass` and the driver realises every attribute-set mask through the generated `contains`
 functions, so `interface_spec` (through `passesCount_eq`, `passesAdd_eq`) and the theorems `attrsets_spec`,
@@ -90,6 +96,71 @@ def parse_build_interface(src):
     if not add or re.sub(r"\s", "", add.group(1)) != "remote->localIndexPair().local().local()":
         raise TranslateError("buildInterface: the add statement does not add remote->localIndexPair().local().local()")
     return tests
+
+
+# ---------------------------------------------------------------------------------------------------------------
+# sendRecv: the completion loops
+DEFAULT_BOUNDS = dict(recvLoop="realRecvs", recvCount="neighbours", sendWait="neighbours")
+
+
+def parse_send_recv(src):
+    """bounds of the MPI_Waitany loop and of the wait for the sends in BufferedCommunicator::sendRecv"""
+    src = _strip_comments(src)
+    m = re.search(r"void\s+BufferedCommunicator\s*::\s*sendRecv\s*\(([^)]*)\)\s*\{", src)
+    if not m:
+        raise TranslateError("definition of BufferedCommunicator::sendRecv not found")
+    body = src[m.end() - 1:_matching(src, m.end() - 1) + 1]
+    # the counter of posted receives: incremented exactly once next to every MPI_Irecv, nowhere else, starts at 0
+    n_irecv = len(re.findall(r"\bMPI_Irecv\s*\(", body))
+    counters = set(re.findall(r"(\w+)\s*(?:\+=\s*1|\+\+)\s*;", body)) | set(re.findall(r"\+\+\s*(\w+)\s*;", body))
+    counter = None
+    for c in counters:
+        incs = len(re.findall(r"\b" + c + r"\s*(?:\+=\s*1|\+\+)\s*;|\+\+\s*" + c + r"\s*;", body))
+        guarded = len(re.findall(r"MPI_Irecv\s*\([^;]*;\s*(?:" + c + r"\s*(?:\+=\s*1|\+\+)|\+\+\s*" + c + r")\s*;", body))
+        if incs == n_irecv and guarded == n_irecv and n_irecv > 0 and re.search(r"\b" + c + r"\s*=\s*0\s*;", body):
+            counter = c
+    def bound(expr):
+        e = re.sub(r"\s", "", expr)
+        if e == "messageInformation_.size()":
+            return "neighbours"
+        if counter is not None and e == counter:
+            return "realRecvs"
+        raise TranslateError("sendRecv: loop bound %r is neither messageInformation_.size() nor the counter of posted receives" % expr)
+    loop = r"for\s*\(\s*(?:\w+\s+)?(\w+)\s*=\s*0\s*;\s*\1\s*<\s*([^;]+?)\s*;\s*(?:\1\s*\+\+|\+\+\s*\1)\s*\)"
+    # receives: a for loop whose body calls MPI_Waitany(count, recvRequests, ...)
+    wa = list(re.finditer(r"\bMPI_Waitany\s*\(\s*([^,]+?)\s*,\s*recvRequests\s*,", body))
+    if len(wa) != 1:
+        raise TranslateError("sendRecv: expected exactly one MPI_Waitany over recvRequests, found %d" % len(wa))
+    heads = [h for h in re.finditer(loop, body) if h.end() < wa[0].start()]
+    if not heads:
+        raise TranslateError("sendRecv: no counting loop around MPI_Waitany")
+    h = heads[-1]
+    br = body.find("{", h.end())
+    if br < 0 or body[h.end():br].strip() or _matching(body, br) < wa[0].start():
+        raise TranslateError("sendRecv: MPI_Waitany is not inside the body of the preceding counting loop")
+    res = dict(recvLoop=bound(h.group(2)), recvCount=bound(wa[0].group(1)))
+    # sends: MPI_Waitall(n, sendRequests, ..) or a counting loop around MPI_Wait(sendRequests+i / &sendRequests[i], ..)
+    wall = list(re.finditer(r"\bMPI_Waitall\s*\(\s*([^,]+?)\s*,\s*sendRequests\s*,", body))
+    wone = list(re.finditer(r"\bMPI_Wait\s*\(\s*(?:sendRequests\s*\+\s*(\w+)|&\s*sendRequests\s*\[\s*(\w+)\s*\])\s*,", body))
+    if len(wall) == 1 and not wone:
+        res["sendWait"] = bound(wall[0].group(1))
+    elif len(wone) == 1 and not wall:
+        var = wone[0].group(1) or wone[0].group(2)
+        heads = [h for h in re.finditer(loop, body) if h.end() < wone[0].start()]
+        if not heads or heads[-1].group(1) != var:
+            raise TranslateError("sendRecv: MPI_Wait on sendRequests is not indexed by the preceding counting loop")
+        h = heads[-1]
+        between = body[h.end():wone[0].start()]
+        if not re.fullmatch(r"\s*\{?\s*(?:if\s*\(\s*(?:MPI_SUCCESS\s*!=\s*)?)?", between):
+            raise TranslateError("sendRecv: statements between the loop head and MPI_Wait on sendRequests")
+        res["sendWait"] = bound(h.group(2))
+    else:
+        raise TranslateError("sendRecv: wait for the sends not recognised (%d MPI_Waitall, %d MPI_Wait on sendRequests)"
+                             % (len(wall), len(wone)))
+    # every send request that is posted lives in sendRequests[i], i = position in messageInformation_ (one MPI_Issend per branch)
+    if not re.search(r"new\s+MPI_Request\s*\[\s*messageInformation_\s*\.\s*size\s*\(\s*\)\s*\]", body):
+        raise TranslateError("sendRecv: request arrays are not sized messageInformation_.size()")
+    return res
 
 
 # ---------------------------------------------------------------------------------------------------------------
@@ -272,6 +343,13 @@ def analyse(repo):
     except (TranslateError, OSError) as ex:
         tests = DEFAULT_TESTS
         status["buildInterface"] = str(ex)
+    try:
+        with open(os.path.join(repo, "dune/common/parallel/communicator.hh")) as f:
+            bounds = parse_send_recv(f.read())
+        status["sendRecv"] = None
+    except (TranslateError, OSError) as ex:
+        bounds = dict(DEFAULT_BOUNDS)
+        status["sendRecv"] = str(ex)
     bodies = {}
     try:
         with open(os.path.join(repo, "dune/common/enumset.hh")) as f:
@@ -287,7 +365,7 @@ def analyse(repo):
         except TranslateError as ex:
             bodies[cls] = default
             status["enumset:" + cls] = str(ex)
-    return dict(tests=tests, bodies=bodies, status=status)
+    return dict(tests=tests, bodies=bodies, bounds=bounds, status=status)
 
 
 def status(repo):
@@ -300,7 +378,7 @@ def render(a):
     at = {"remote": ".remote", "loc": ".loc"}
     tl = lambda x: "⟨%s, %s, %s, %s⟩" % (fs[x[0]], at[x[1]], fs[x[2]], at[x[3]])
     out = []
-    out.append("/- GENERATED by tools/translators/tr_c05.py from dune/common/parallel/interface.hh and dune/common/enumset.hh")
+    out.append("/- GENERATED by tools/translators/tr_c05.py from dune/common/parallel/interface.hh, communicator.hh and dune/common/enumset.hh")
     out.append("   of the tree under test — do not edit; `python3 tools/regen.py C05` rewrites it from /repo. -/")
     out.append("set_option linter.unusedVariables false")
     out.append("namespace DV.C05.Gen")
@@ -337,6 +415,22 @@ def render(a):
     for cls, name, params, _ in ENUM_CLASSES:
         out.append("/-- `%s<…>::contains(item)` -/" % cls)
         out.append("def %s %s(item : Int) : Bool := %s" % (name, params, a["bodies"][cls]))
+    out.append("")
+    b = a["bounds"]
+    out.append("/-! the completion loops at the end of `BufferedCommunicator::sendRecv` (communicator.hh) -/")
+    out.append("/-- a loop bound / request count: `messageInformation_.size()` (all neighbours) or the counter incremented next to")
+    out.append("    every `MPI_Irecv` (the receives really posted) -/")
+    out.append("inductive Bound where")
+    out.append("  | neighbours")
+    out.append("  | realRecvs")
+    out.append("  deriving DecidableEq, Repr")
+    out.append("")
+    out.append("/-- number of `MPI_Waitany` calls -/")
+    out.append("def recvLoopBound : Bound := .%s" % b["recvLoop"])
+    out.append("/-- `count` argument of `MPI_Waitany(count, recvRequests, ..)` -/")
+    out.append("def recvWaitCount : Bound := .%s" % b["recvCount"])
+    out.append("/-- number of entries of `sendRequests` (indexed like `messageInformation_`) that are waited for before `sendRecv` returns -/")
+    out.append("def sendWaitBound : Bound := .%s" % b["sendWait"])
     out.append("")
     out.append("/-- which items were read from the source (`false`: outside the translator's grammar, built-in transcription used) -/")
     out.append("def translated : List (String × Bool) :=")
